@@ -158,6 +158,8 @@ pub struct World<T: Payload> {
     pub arena: Arena<T>,
     pub shadow: Option<(Arena<T>, ShadowKind)>,
     pub frozen: Option<Frozen<T>>,
+    /// an older clone kept aside as destination of a later `clone_from`
+    pub spare: Option<Arena<T>>,
     pub m: Model,
     pub cfg: ExecCfg,
     pub step_no: usize,
@@ -298,6 +300,7 @@ impl<T: Payload> World<T> {
                 arena,
                 shadow,
                 frozen: None,
+                spare: None,
                 m: Model::new(),
                 cfg,
                 step_no: 0,
@@ -333,7 +336,8 @@ impl<T: Payload> World<T> {
                 let cnt = crate::treemacro::shape_nodes(*shape) + if root.is_none() { 1 } else { 0 };
                 root.map_or(true, |r| m.is_live(r)) && (0..cnt as u32).all(|i| fresh(&(kbase + i)))
             }
-            Op::RestartClone | Op::RestartSerde { .. } | Op::Clear => self.frozen.is_none(),
+            Op::RestartClone | Op::RestartSerde { .. } | Op::Clear | Op::CloneFrom => self.frozen.is_none(),
+            Op::SaveSpare | Op::ObsCapacity { .. } => true,
             Op::Fork { k, .. } => self.frozen.is_none() && *k >= 1,
             Op::ObsTraverse | Op::ObsLookup | Op::Drain | Op::ObsPar { .. } => true,
             Op::ObsPull { x, .. } | Op::ObsPrint { x, .. } => m.is_live(*x),
@@ -391,6 +395,10 @@ impl<T: Payload> World<T> {
             Op::ObsPar { threads } => {
                 state_changing = false;
                 self.obs_par(*threads, &mut out.viols);
+            }
+            Op::ObsCapacity { n, ty } => {
+                state_changing = false;
+                self.obs_capacity(*n, *ty, &mut out.viols);
             }
             _ => {
                 state_changing = true;
@@ -1116,6 +1124,36 @@ impl<T: Payload> World<T> {
                         self.resync_serials();
                     }
                     Err(p) => self.unexpected_panic("C13", "clone", &p, out),
+                }
+            }
+            Op::SaveSpare => {
+                if let Ok(c) = catch(|| self.arena.clone()) {
+                    self.spare = Some(c);
+                }
+            }
+            Op::CloneFrom => {
+                let Some(mut b) = self.spare.take() else {
+                    self.mutate(&Op::RestartClone, out);
+                    return;
+                };
+                self.stats.fault("R-clone-from");
+                if b.count() > 0 {
+                    self.stats.probe("clone_from_into_used_arena");
+                }
+                let arena = &self.arena;
+                match catch(|| b.clone_from(arena)) {
+                    Ok(()) => {
+                        if b != self.arena || self.digest_of(&b) != self.state_digest() {
+                            out.viols.push(viol("C13", "clone_not_equal", "after b.clone_from(&a): b != a"));
+                        }
+                        let live_serials: Vec<Option<u64>> = self.m.nodes.values().filter(|n| n.live).map(|n| n.serial).collect();
+                        let mark = payload::ledger_mark();
+                        let old = std::mem::replace(&mut self.arena, b);
+                        drop(old);
+                        self.check_window(mark, &live_serials, &[], "drop of the original arena", &mut out.viols);
+                        self.resync_serials();
+                    }
+                    Err(p) => self.unexpected_panic("C13", "clone_from", &p, out),
                 }
             }
             Op::RestartSerde { fmt, io } => self.do_restart_serde(*fmt, *io, out),
